@@ -19,6 +19,7 @@ func init() {
 			{"SCHEMA-CONFINEMENT", ruleSchemaConfinement},
 			{"UNKNOWN-FIELD-SKIP", ruleUnknownFieldSkip},
 			{"VERSION-FLIP", ruleVersionFlip},
+			{"MERGE-FRESH-COLLECTION", ruleMergeFreshCollection},
 			{"TXN-SHAPE", ruleTxnShape},
 		},
 		Meta: eng.PropMeta{
@@ -154,4 +155,62 @@ func ruleVersionFlip(c *eng.Ctx) {
 		}
 	}
 	_ = token.NoPos
+}
+
+// ruleMergeFreshCollection: every merge runs against the collection definition read for that very
+// merge event (inside the event's goroutine), never against a cached collection object.
+func ruleMergeFreshCollection(c *eng.Ctx) {
+	const rule = "MERGE-FRESH-COLLECTION"
+	fi := c.Anchor(rule, "internal/db.(*DB).handleMessages")
+	if fi == nil {
+		return
+	}
+	info := fi.Pkg.TypesInfo
+	n := 0
+	ast.Inspect(fi.Decl.Body, func(m ast.Node) bool {
+		lit, ok := m.(*ast.FuncLit)
+		if !ok {
+			return true
+		}
+		for _, cs := range eng.Calls(info, lit.Body) {
+			if cs.Name != "internal/db.(*DB).executeMerge" || len(cs.Call.Args) != 3 {
+				continue
+			}
+			n++
+			col := eng.ObjOf(info, cs.Call.Args[1])
+			fresh := false
+			if col != nil && lit.Body.Pos() <= col.Pos() && col.Pos() <= lit.Body.End() {
+				// every assignment to col inside the literal is a direct lookup
+				all, any := true, false
+				ast.Inspect(lit.Body, func(x ast.Node) bool {
+					as, ok := x.(*ast.AssignStmt)
+					if !ok {
+						return true
+					}
+					for i, l := range as.Lhs {
+						if eng.ObjOf(info, l) != col {
+							continue
+						}
+						any = true
+						var rhs ast.Expr
+						if len(as.Rhs) == 1 {
+							rhs = as.Rhs[0]
+						} else if i < len(as.Rhs) {
+							rhs = as.Rhs[i]
+						}
+						call, isCall := ast.Unparen(rhs).(*ast.CallExpr)
+						if !isCall || eng.CalleeName(info, call) != "internal/db.getCollectionFromCollectionID" {
+							all = false
+						}
+					}
+					return true
+				})
+				fresh = all && any
+			}
+			c.Check(fresh, rule, fmt.Sprintf("handleMessages:executeMerge#%d:collection-read-per-event", n), cs.Call.Pos(), "the merge uses the collection definition read for this event",
+				"executeMerge receives a collection that is not read by getCollectionFromCollectionID inside the event's own goroutine (a cached or shared object): after a schema patch or version switch merges keep running against the stale definition and silently skip the new fields")
+		}
+		return true
+	})
+	c.Floor(rule, n, 1)
 }
